@@ -68,6 +68,7 @@ def impl_case(case):
     rng = random.Random(p["np_seed"])
     np.random.seed(p["np_seed"])
     snaps = [("init", snapshot(problem))]
+    snaps[0][1]["input"] = p["seq"].upper()
     for op in hist:
         try:
             if op == "resolve":
@@ -101,6 +102,8 @@ def run_impl(case):
 
 def check_snapshot(s):
     cur, orig = s["cur"], s["orig"]
+    if "input" in s and s["input"] != orig:
+        return "sequence_before %s is not the sequence the problem was given (%s): edits are counted against the wrong original" % (orig, s["input"])
     mism = [i for i in range(len(cur)) if cur[i] != orig[i]]
     if s["n_edits"] != len(mism):
         return "number_of_edits() = %d but %d positions differ" % (s["n_edits"], len(mism))
